@@ -103,6 +103,21 @@ CLAIMS = {
          "Tie: ~400 spelling groups, every member accepted and all real token streams within a group identical (in-process), model agrees.",
          COMMON_NOTE + "the canonical leaves are a tiny model of syn restricted to the documented token forms; that real syn yields these records is re-validated on every run because the model is fed syn's actual records; general parameter permutations are proved for adjacent swaps under the stated commutation premises.",
          "Lean 4 theorems over canonical oracle records + spelling-group correspondence (B3)"),
+ "C11": ("Theorems auto_preds_shape / auto_preds_only_collected (automatic mode appends one `FieldTy: Trait` per collected type plus the "
+         "supertraits on Self, nothing else), struct_body_delegates_exactly + delegated_types_and_operands (the collected types are exactly the "
+         "fields on which the generated PartialEq body calls the trait's own method — two independently written parts linked), "
+         "ignored_and_method_fields_not_bound, companion_same_predicates / companion_applies_iff (Eq with PartialEq, Copy with Clone share the "
+         "primary's predicates). Tie: generic definitions x all traits x ignore/method/expression choices expanded in-process; every real impl's "
+         "appended predicates compared with the model's (which handler collects which field types, supertraits, companions).",
+         COMMON_NOTE + "applicability is read as 'all where-predicates hold' (rustc's trait solver is not modelled); the body/bounds link is proved for the PartialEq struct generator and validated by the correspondence for the other handlers; compile-time instantiation probes are not built yet.",
+         "Lean 4 theorems + impl-header correspondence (B2)"),
+ "C12": ("Theorems header_reproduces_generics (impl generics, self type and the user's where-clause are the type's own for every item), "
+         "bound_all_constrains_type_params / bound_all_only_type_params / lifetimes_and_consts_never_bound, bound_custom_adds_given, "
+         "bound_disabled_adds_nothing, bound_off_spellings_add_nothing. Tie: generic parameter lists (lifetimes with bounds, bounded and defaulted "
+         "type parameters, const parameters with defaults, where-clauses) x every trait x every bound spelling incl. per-target bounds on Into; "
+         "real impl generics / self type / where-clause compared in-process.",
+         COMMON_NOTE + "split_for_impl (dropping defaults, ordering) is syn's and is taken from syn's own output for the input type.",
+         "Lean 4 theorems + impl-header correspondence (B2)"),
 }
 
 ENGINES = [
